@@ -57,11 +57,8 @@ let world_of_field f : world =
                             match lookup runs l with Some v -> Some (str_of_bytes v) | None -> Some []);
     aliases = (fun k -> Option.map str_of_bytes (lookup als k)) }
 
-(* stand-in tokenizer for alias values (the real one is Model/Tokenizer.v, composed by
-   the maintainer): the drivers only use alias values made of blank-separated plain words *)
-let tokenize (s : n list) : (tag * n list) list =
-  List.filter_map (fun w -> if w = "" then None else Some (TNone, str_of_bytes w))
-    (String.split_on_char ' ' (bytes_of_str s))
+(* alias values are tokenized by the extracted parse_line (Model/Tokenizer.v) *)
+let tokenize (s : n list) : (tag * n list) list = parse_line s
 
 let show_res f r = match r with
   | Ok a -> f a | Panic _ -> "PANIC" | OutOfFuel -> "HANG"
@@ -106,11 +103,8 @@ let () =
         | ["neb"; s] -> b2s (need_expand_brace (str_of_field s))
         | ["ng"; s] -> b2s (needs_globbing (str_of_field s))
         | ["sdd"; s] -> b2s (should_do_dollar (str_of_field s))
-        | ["one"; w; s] -> q (expand_one_env (world_of_field w) (str_of_field s))
-        | ["loop"; w; fuel; s] ->
-            show_res q (expand_env_loop (nat_of_int (int_of_string fuel)) (world_of_field w) (str_of_field s))
-        | ["env"; w; fuel; t] ->
-            show_res show_toks (expand_env (nat_of_int (int_of_string fuel)) (world_of_field w) (toks_of_field t))
+        | ["once"; w; s] -> q (expand_env_once (world_of_field w) (str_of_field s))
+        | ["env"; w; _; t] -> show_toks (expand_env (world_of_field w) (toks_of_field t))
         | ["bgi"; s; d] ->
             show_res (fun (o, r) -> "(" ^ qlist o ^ "," ^ q r ^ ")")
               (brace_getitem (str_of_field s) (nat_of_int (int_of_string d)))
@@ -118,7 +112,7 @@ let () =
             show_res (function None -> "None" | Some (o, r) -> "Some(" ^ qlist o ^ "," ^ q r ^ ")")
               (brace_getgroup (str_of_field s) (nat_of_int (int_of_string d)))
         | ["eb"; t] -> show_res show_toks (expand_brace (toks_of_field t))
-        | ["ebr"; oc; t] -> show_res show_toks (expand_brace_range (oc = "1") (toks_of_field t))
+        | ["ebr"; oc; t] -> show_res show_toks (expand_brace_range (toks_of_field t))
         | ["eh"; w; t] -> show_toks (expand_home (world_of_field w) (toks_of_field t))
         | ["eg"; w; t] -> show_res show_toks (expand_glob (world_of_field w) (toks_of_field t))
         | ["cs"; w; fuel; t] ->
@@ -126,15 +120,10 @@ let () =
               (do_command_substitution (nat_of_int (int_of_string fuel)) (world_of_field w) (toks_of_field t))
         | ["dx"; w; fuel; t] ->
             show_res (fun (t, log) -> show_toks t ^ " calls=" ^ qlist log)
-              (do_expansion_log true tokenize (world_of_field w) (nat_of_int (int_of_string fuel)) (toks_of_field t))
-        | ["tpl"; head; tail; t] ->
-            let h = str_of_field head and tl = str_of_field tail in
-            let g i = (match int_of_n i with 0 -> h @ str_of_bytes "$(x)" @ tl | 1 -> h | 2 -> tl | _ -> []) in
-            let nm name = (match bytes_of_str name with "head" -> Some (n_of_int 1) | "tail" -> Some (n_of_int 2) | _ -> None) in
-            q (expand_template g nm (str_of_field t))
+              (do_expansion_log tokenize (world_of_field w) (nat_of_int (int_of_string fuel)) (toks_of_field t))
         | ["den"; w; ps] ->
             let w = world_of_field w and ps = pieces_of_field ps in
-            q (render_pieces ps) ^ " " ^ q (den_pieces w ps) ^ " wf=" ^ b2s (wf_pieces ps) ^ " dom=" ^ b2s (c10_dom w ps)
+            q (render_pieces ps) ^ " " ^ q (den_pieces w ps) ^ " wf=" ^ b2s (wf_pieces ps) ^ " gate=" ^ b2s (gate_ok ps)
         | ["term"; s] ->
             let t = parse_term (utf8_decode (dec_bytes s)) in
             q (render_term t) ^ " " ^ qlist (den_term t) ^ " wf=" ^ b2s (wf_term t)
